@@ -1529,6 +1529,34 @@ def held_across_change(obj: Any, holders: Iterable, change: Callable[[Any], Any]
         try:
             h = take(obj)
             before = observe(h)
+        except (SelfCheckFailure, InfraError):
+            raise
+        except Exception:  # noqa
+            continue
+        if valid is not None:
+            bad = valid(before)
+            if bad:
+                return f"{what}: {name} taken from the object: {bad}"
+        held.append((name, h, observe, valid, before))
+    change(obj)
+    for name, h, observe, valid, before in held:
+        try:
+            after = observe(h)
+        except (SelfCheckFailure, InfraError):
+            raise
+        except Exception as e:  # noqa
+            return (f"{what}: {name} taken BEFORE the object was changed through its documented setters can no longer be inspected "
+                    f"AFTER the change ({type(e).__name__}: {str(e)[:80]})")
+        if after != before:
+            tail = ""
+            if valid is not None:
+                bad = valid(after)
+                tail = f" ({bad})" if bad else ""
+            return (f"{what}: {name} taken BEFORE the object was changed through its documented setters shows something else "
+                    f"AFTER the change: {_short(before)} became {_short(after)}{tail} - what a conversion returned is a value of "
+                    f"its own and does not follow (parts of) the object it was made from")
+    return None
+
 # probes for PARAMETER OBJECTS a decoder / getter hands out and the application then EDITS IN PLACE (a received set of
 # parameters turned into the application's own report): what is decoded afterwards - from the same octets, from an equal
 # freshly packed message - still shows the documented values. `public_view` / `mutate_public` are the generic halves of such a
@@ -1669,29 +1697,6 @@ def mutate_public(obj: Any, depth: int = 3) -> int:
             raise
         except Exception:  # noqa
             continue
-        if valid is not None:
-            bad = valid(before)
-            if bad:
-                return f"{what}: {name} taken from the object: {bad}"
-        held.append((name, h, observe, valid, before))
-    change(obj)
-    for name, h, observe, valid, before in held:
-        try:
-            after = observe(h)
-        except (SelfCheckFailure, InfraError):
-            raise
-        except Exception as e:  # noqa
-            return (f"{what}: {name} taken BEFORE the object was changed through its documented setters can no longer be inspected "
-                    f"AFTER the change ({type(e).__name__}: {str(e)[:80]})")
-        if after != before:
-            tail = ""
-            if valid is not None:
-                bad = valid(after)
-                tail = f" ({bad})" if bad else ""
-            return (f"{what}: {name} taken BEFORE the object was changed through its documented setters shows something else "
-                    f"AFTER the change: {_short(before)} became {_short(after)}{tail} - what a conversion returned is a value of "
-                    f"its own and does not follow (parts of) the object it was made from")
-    return None
         if _is_leaf(cur):
             for cand in _other_values(cur):
                 if tolerant_set(obj, name, cand):
